@@ -162,7 +162,7 @@ def dc_program(rng):
 
 def ac_program(rng, w):
     p = drawgen.random_program(rng, kinds=['Resistor', 'Resistor', 'Capacitor', 'Inductance', 'ACVoltageSource'], n_sources=1, max_cells=2,
-                               with_ground=True, n_labels=rng.randint(0, 1))
+                               with_ground=True, n_labels=rng.randint(1, 2))       # potentials of complex solutions need labelled nodes
     for s in p['symbols']:
         if s['cls'] == 'ACVoltageSource':
             s['kw']['w'] = w
@@ -425,7 +425,7 @@ def run(ctx):
         n = 5 if ctx.tier == 'quick' else 120
         for _ in range(n):
             examine_drawing(ctx, dc_program(rng), rng)
-        for _ in range(n):
+        for _ in range(15 if ctx.tier == 'quick' else n):       # five solution kinds x labelled nodes: the complex potentials need more drawings
             w = rng.choice([1.0, 50.0, 314.0, 1000.0])
             examine_drawing(ctx, ac_program(rng, w), rng, ac_w=w)
         examine_declarative(ctx, rng)
